@@ -163,18 +163,12 @@ def run(ctx):
         mats, prods = const_list(rt["args"][2]), const_list(rt["args"][3])
         ctx.inst("C08/D6", "inspection records materials and products of the same fixed, non-empty path list", bool(mats) and mats == prods,
                  "material paths %s (<- %s), product paths %s (<- %s)" % (mats, P.leaves_s(rt["args"][2]), prods, P.leaves_s(rt["args"][3])), rt["at"])
-        stop = lambda t: callee_name(t) in ("std::iter::Iterator::map",)
-        cl = b.trace(rt["args"][4], (), stop)
-        okc = bool(cl)
-        for lf in cl:
-            if lf.kind == "call" and callee_name(lf.data[1]) == "std::iter::Iterator::map":
-                src = b.trace(lf.data[1]["args"][0])
-                if not (src and all(x.kind == "call" and x.data[0] == P.gate[0] and x.path[:len(P.gate_leaf_path(fld("inspect"), ELEM, fld("run")))] ==
-                                    P.gate_leaf_path(fld("inspect"), ELEM, fld("run")) for x in src)):
-                    okc = False
-            else:
-                okc = False
-        ctx.inst("C08/D6", "inspection command is the inspection's `run` field", okc, "command arguments <- %s" % P.leaves_s(rt["args"][4], ()), rt["at"])
+        # every element of the argument vector derives from the verified layout's inspect[].run (whatever builds the vector:
+        # map + collect, a push loop, ...)
+        want = P.gate_leaf_path(fld("inspect"), ELEM, fld("run"))
+        cl = b.trace(rt["args"][4], (ELEM,), None, {"__content__": True})
+        okc = bool(cl) and all(x.kind == "call" and x.data[0] == P.gate[0] and x.path[:len(want)] == want for x in cl)
+        ctx.inst("C08/D6", "inspection command is the inspection's `run` field", okc, "elements of the command arguments <- {%s}" % ", ".join(leaf_s(b, x) for x in cl), rt["at"])
     # ---- D5
     if not insp_rules:
         ctx.bad("C08/D5", "inspection rules", "no artifact-rule application behind the inspection run")
